@@ -471,7 +471,7 @@ class EuclideanCodebook(Module):
             self.cluster_size.data[ind][mask] = self.reset_cluster_size
             self.embed_avg.data[ind][mask] = sampled * self.reset_cluster_size
 
-    def expire_codes_(self, batch_samples):
+    def expire_codes_(self, batch_samples, mask = None):
         if self.threshold_ema_dead_code == 0:
             return
 
@@ -481,6 +481,11 @@ class EuclideanCodebook(Module):
             return
 
         batch_samples = rearrange(batch_samples, 'h ... d -> h (...) d')
+
+        if exists(mask):
+            c = batch_samples.shape[0]
+            batch_samples = rearrange(batch_samples[mask], '(c n) d -> c n d', c = c)
+
         self.replace(batch_samples, batch_mask = expired_codes)
 
     def update_ema(self):
@@ -584,7 +589,7 @@ class EuclideanCodebook(Module):
 
             if not self.manual_ema_update:
                 self.update_ema()
-                self.expire_codes_(x)
+                self.expire_codes_(x, mask = mask)
 
         if needs_codebook_dim:
             quantize, embed_ind = map(lambda t: rearrange(t, '1 ... -> ...'), (quantize, embed_ind))
@@ -691,7 +696,7 @@ class CosineSimCodebook(Module):
             self.embed_avg.data[ind][mask] = sampled * self.reset_cluster_size
             self.cluster_size.data[ind][mask] = self.reset_cluster_size
 
-    def expire_codes_(self, batch_samples):
+    def expire_codes_(self, batch_samples, mask = None):
         if self.threshold_ema_dead_code == 0:
             return
 
@@ -701,6 +706,11 @@ class CosineSimCodebook(Module):
             return
 
         batch_samples = rearrange(batch_samples, 'h ... d -> h (...) d')
+
+        if exists(mask):
+            c = batch_samples.shape[0]
+            batch_samples = rearrange(batch_samples[mask], '(c n) d -> c n d', c = c)
+
         self.replace(batch_samples, batch_mask = expired_codes)
 
     def update_ema(self):
@@ -788,7 +798,7 @@ class CosineSimCodebook(Module):
 
             if not self.manual_ema_update:
                 self.update_ema()
-                self.expire_codes_(x)
+                self.expire_codes_(x, mask = mask)
 
         if needs_codebook_dim:
             quantize, embed_ind = map(lambda t: rearrange(t, '1 ... -> ...'), (quantize, embed_ind))
